@@ -500,3 +500,94 @@ def r_rawcmp(ctx, tenv, funcs, rule: str = 'R-RAWCMP') -> int:
                     n += 1
                     ctx.fail(rule, fn, f'raw ordinal bounds ordered by `{core.src(node)}`', node)
     return n
+
+
+MUTATORS = {'add', 'discard', 'update', 'remove', 'pop', 'popitem', 'clear', 'setdefault', 'append', 'extend', 'insert', 'sort', 'reverse', 'appendleft', 'popleft', 'extendleft', '__setitem__', '__delitem__'}
+
+
+def container_writes(fn_node: ast.AST, attrs: set[str]) -> list[tuple[ast.AST, str]]:
+    """Sites of ``fn_node`` (own body only) that may mutate a container stored in an attribute named in ``attrs``:
+    attribute (re)binding, subscript/slice store or delete, augmented assignment, a mutating method call - directly on the
+    attribute, on an element of it (``self.x[k].append``), or through a local alias bound from an expression that reads
+    the attribute (``args = self.x[k]``, ``for a in self.x.values()``).  Returns (site, attribute)."""
+
+    def reads(expr: ast.AST) -> typing.Optional[str]:
+        for n in ast.walk(expr):
+            if isinstance(n, ast.Attribute) and n.attr in attrs:
+                return n.attr
+        return None
+
+    alias: dict[str, str] = {}
+    changed = True
+    while changed:
+        changed = False
+        for n in core.walk_local(fn_node):
+            src_, tgts = None, []
+            if isinstance(n, ast.Assign):
+                src_, tgts = n.value, n.targets
+            elif isinstance(n, ast.AnnAssign) and n.value is not None:
+                src_, tgts = n.value, [n.target]
+            elif isinstance(n, (ast.For, ast.comprehension)):
+                src_, tgts = n.iter, [n.target]
+            elif isinstance(n, ast.NamedExpr):
+                src_, tgts = n.value, [n.target]
+            elif isinstance(n, ast.withitem) and n.optional_vars is not None:
+                src_, tgts = n.context_expr, [n.optional_vars]
+            if src_ is None:
+                continue
+            a = reads(src_)
+            if a is None:
+                a = next((alias[x.id] for x in ast.walk(src_) if isinstance(x, ast.Name) and x.id in alias), None)
+            if a is None:
+                continue
+            # only container-valued bindings matter: a scalar copied out of the container is not an alias, but telling
+            # them apart needs types - stay conservative (a false alias only matters if it is *mutated* below)
+            for t in tgts:
+                for x in ast.walk(t):
+                    if isinstance(x, ast.Name) and x.id not in alias:
+                        alias[x.id] = a
+                        changed = True
+
+    def base_of(node: ast.AST) -> typing.Optional[str]:
+        while isinstance(node, (ast.Subscript, ast.Call, ast.Starred)):
+            node = node.value if isinstance(node, (ast.Subscript, ast.Starred)) else node.func
+            if isinstance(node, ast.Attribute) and node.attr in ('get', 'values', 'items', 'setdefault', '__getitem__'):
+                node = node.value
+        if isinstance(node, ast.Attribute) and node.attr in attrs:
+            return node.attr
+        if isinstance(node, ast.Name) and node.id in alias:
+            return alias[node.id]
+        return None
+
+    out: list[tuple[ast.AST, str]] = []
+    for n in core.walk_local(fn_node):
+        if isinstance(n, (ast.Assign, ast.AugAssign, ast.Delete, ast.AnnAssign)):
+            tgts = n.targets if isinstance(n, (ast.Assign, ast.Delete)) else [n.target]
+            for t in tgts:
+                if isinstance(t, ast.Subscript):
+                    a = base_of(t.value)
+                elif isinstance(t, ast.Attribute) and t.attr in attrs:
+                    a = t.attr
+                elif isinstance(n, ast.AugAssign) and isinstance(t, ast.Name) and t.id in alias:
+                    a = alias[t.id]
+                else:
+                    a = None
+                if a:
+                    out.append((n, a))
+        elif isinstance(n, ast.Call) and isinstance(n.func, ast.Attribute) and n.func.attr in MUTATORS:
+            a = base_of(n.func.value)
+            if a:
+                out.append((n, a))
+    return out
+
+
+def r_writers(ctx, funcs, table: dict[str, set[str]], rule: str = 'R-OWNER', what: str = '') -> int:
+    """Who-may-write census: every site that may mutate one of the containers in ``table`` (attribute -> set of allowed
+    function refs) lies in an allowed function.  Returns the number of write sites seen."""
+    n = 0
+    attrs = set(table)
+    for fn in funcs:
+        for site, a in container_writes(fn.node, attrs):
+            n += 1
+            ctx.check(fn.ref in table[a], rule, fn, f'{what}`{a}` is written only by {sorted(r.split(":")[1] for r in table[a])}', site)
+    return n
